@@ -9,7 +9,7 @@ namespace Nix.Drive.Store
 open Nix Nix.Proto Nix.Drive Nix.Dump
 
 def sessionOps : List String := ["fopen", "fclose", "freopen", "fflush", "fdrop", "fisopen", "fbytes"]
-def readOnlyOps : List String := ["get", "has", "count", "list", "valid", "drop", "idof", "haslink", "getlink", "countlink", "listlink",
+def readOnlyOps : List String := ["getlinkh", "get", "has", "count", "list", "valid", "drop", "idof", "haslink", "getlink", "countlink", "listlink",
   "xcheck", "xlinks", "getf", "find", "dump", "dumpx", "validate"]
 
 def implOk (impl : List String) : Bool := impl.head? == some "ok"
@@ -148,9 +148,17 @@ def handleImpl (ds : DState) (op : String) (args impl : List String) : Option (D
     | slot :: kind :: _, ["ok", id] => fin (if id.length == 36 then bind st slot id else { st with slotIds := st.slotIds.filter (·.1 != slot) }) (.ok s!"get.{kind}")
     | _, _ => fin st (.ok "get.err")
   | "valid" =>
-    -- C04: a handle to an entity that has just been deleted reports itself invalid
+    -- C04: a handle to an entity that has just been deleted reports itself invalid — whichever route the handle was obtained by
+    -- (the slot that named the victim, or another slot holding the same entity, e.g. fetched through a tag or a group)
+    let sameEntity : Bool := match st.lastDeleted, args[0]? with
+      | some v, some sl => v == sl || (match slotId st v, slotId st sl with | some a, some b => a == b && a.length == 36 | _, _ => false)
+      | _, _ => false
     fin st (judge s!"valid.{if ok then "ok" else "err"}" impl impl
-      (if args.length == 2 && args[1]? == some "deleted" && st.lastDeleted == args[0]? then [("deleted_handle_reports_invalid", impl == ["ok", "0"])] else []))
+      (if args.length == 2 && args[1]? == some "deleted" && sameEntity && impl != ["ok", "none"] then [("deleted_handle_reports_invalid", impl == ["ok", "0"])] else []))
+  | "getlinkh" =>
+    match args, impl with
+    | slot :: _, ["ok", id] => fin (if id.length == 36 then bind st slot id else { st with slotIds := st.slotIds.filter (·.1 != slot) }) (.ok s!"getlinkh.{if id.length == 36 then "found" else "none"}")
+    | _, _ => fin st (.ok "getlinkh.err")
   | "has" | "count" | "list" | "drop" | "idof" | "haslink" | "getlink" | "countlink" | "listlink" =>
     fin st (.ok s!"{op}.{if ok then "ok" else "err"}")
   | "adim" | "sdim" | "ddims" | "da_setext" | "da_fill" | "pvalues" | "pset" | "mkpv" =>
